@@ -333,12 +333,16 @@ struct ChopStream {
     /// position inside the buffer tungstenite is flushing, and what was left of it after the last write
     pos: usize,
     last_remaining: usize,
+    /// `+8`: stalls longer than any plausible internal timer, each once, in the middle of a frame
+    long_stalls: Vec<u64>,
 }
+
+static THOROUGH: std::sync::atomic::AtomicBool = std::sync::atomic::AtomicBool::new(false);
 
 impl ChopStream {
     fn new(inner: TcpStream, mode: u8, seed: u64) -> ChopStream {
         let _ = inner.set_nodelay(true);
-        ChopStream { inner, mode, rng: Rng::new(seed), sleep: None, budget: 0, pos: 0, last_remaining: 0 }
+        ChopStream { inner, mode, rng: Rng::new(seed), sleep: None, budget: 0, pos: 0, last_remaining: 0, long_stalls: if THOROUGH.load(std::sync::atomic::Ordering::Relaxed) { vec![11_000, 5_500, 2_500] } else { vec![1_100, 600, 300] } }
     }
 }
 
@@ -352,7 +356,7 @@ impl tokio::io::AsyncWrite for ChopStream {
     fn poll_write(mut self: std::pin::Pin<&mut Self>, cx: &mut std::task::Context<'_>, buf: &[u8]) -> std::task::Poll<std::io::Result<usize>> {
         use std::task::Poll;
         let this = &mut *self;
-        if this.mode & 3 == 0 || buf.is_empty() {
+        if this.mode & 11 == 0 || buf.is_empty() {
             return std::pin::Pin::new(&mut this.inner).poll_write(cx, buf);
         }
         if let Some(s) = this.sleep.as_mut() {
@@ -365,9 +369,11 @@ impl tokio::io::AsyncWrite for ChopStream {
             this.pos = 0; // a new buffer is being flushed
         }
         if this.budget == 0 {
-            this.budget = match this.mode & 3 {
+            this.budget = match if this.mode & 3 == 0 { 2 } else { this.mode & 3 } {
                 // with stalls: byte by byte through the first and the last 64 bytes, the middle in bulk
                 1 if this.mode & 4 != 0 && this.pos >= 16 && buf.len() > 8 => ((buf.len() - 8) / (1 + this.rng.below(3) as usize)).max(1) + this.rng.below(5) as usize,
+                // byte by byte — except through the middle of a large buffer (quick tier: time)
+                1 if buf.len() > 4096 && this.pos >= 64 => buf.len() - 64,
                 1 => 1,
                 2 => (buf.len() / (2 + this.rng.below(2) as usize)).max(1) + this.rng.below(3) as usize,
                 _ => 1460,
@@ -379,7 +385,11 @@ impl tokio::io::AsyncWrite for ChopStream {
                 this.budget -= w.min(this.budget);
                 this.pos += w;
                 this.last_remaining = buf.len() - w;
-                if this.mode & 4 != 0 && this.rng.chance(1, 4) {
+                if this.mode & 8 != 0 && !this.long_stalls.is_empty() && this.last_remaining > 0 && this.rng.chance(1, 12) {
+                    // the rest of this frame arrives after a long pause
+                    let ms = this.long_stalls.pop().unwrap();
+                    this.sleep = Some(Box::pin(tokio::time::sleep(Duration::from_millis(ms))));
+                } else if this.mode & 4 != 0 && this.rng.chance(1, 4) {
                     let ms = if this.rng.chance(1, 60) { 120 } else { this.rng.range(1, 3) };
                     this.sleep = Some(Box::pin(tokio::time::sleep(Duration::from_millis(ms))));
                 }
@@ -542,6 +552,60 @@ struct OpResult {
 }
 
 const BIG: usize = 48 * 1024;
+
+/// Public entry points of the anchored files (`websocket_server.rs`, `server.rs`) that this family drives.
+const DRIVEN: &[&str] = &[
+    "new", "with_offreader_limit", "with_outbound_capacity", "on_error", "serve_listener", "serve_listener_with_shutdown",
+    "serve_listener_with_graceful_drain", "into_shared", "accept", "accept_with_handshake", "serve_connection", "serve_connection_with_cancel",
+    "with_json", "with_json_blocking", "with_json_ctx_blocking", "with_typed_blocking", "with_typed_ctx_blocking", "with_erased_handler",
+    "with_middleware", "run",
+];
+/// Entry points of `websocket_server.rs` that cannot change how off-reader handlers are admitted, or are another property's.
+const NOT_DRIVEN_BECAUSE: &[(&str, &str)] = &[
+    ("derive_accept_key", "handshake helper"), ("error_code", "getter"), ("from_http_request", "HandshakeContext"), ("path", "HandshakeContext"),
+    ("query", "HandshakeContext"), ("header", "HandshakeContext"), ("headers", "HandshakeContext"), ("cancel", "ShutdownToken (C15)"),
+    ("is_cancelled", "ShutdownToken (C15)"), ("cancelled", "ShutdownToken (C15)"), ("listen", "binds a listener"), ("with_limits", "C17"),
+    ("with_peer_registry", "C18"), ("on_peer_connect", "C15"), ("on_peer_connect_with_handshake", "C15"), ("on_peer_disconnect", "C15"),
+    ("serve", "binds, then the listener twin"), ("serve_with_shutdown", "binds, then the listener twin"), ("serve_with_graceful_drain", "binds, then the listener twin"),
+    ("accept_with_limits", "handshake only"), ("accept_with_handshake_and_limits", "handshake only"), ("limits", "C17"),
+    ("adopt_upgraded", "wraps an upgraded stream"), ("adopt_upgraded_partially_read", "wraps an upgraded stream"),
+    ("serve_connection_with_handshake", "serve_connection + hooks (C15)"), ("serve_connection_with_cancel_and_handshake", "serve_connection + hooks (C15)"),
+    ("proxy_connection", "C17"), ("proxy_connection_with_limits", "C17"), ("is_websocket_upgrade", "peeks at a TCP stream"),
+];
+
+/// Every public entry point of `websocket_server.rs` is driven or listed with a reason, and every `with_*_blocking`
+/// registrar of `server.rs` is driven; anything else goes into the evidence (`not_driven`) and onto stderr.
+fn entry_point_audit(out: &mut Out) {
+    let repo = std::env::var("VERIF_REPO").unwrap_or_else(|_| "/repo".into());
+    let names = |file: &str, only_blocking: bool| -> Vec<String> {
+        let text = std::fs::read_to_string(std::path::Path::new(&repo).join("src").join(file)).unwrap_or_default();
+        let text = text.split("#[cfg(test)]").next().unwrap_or("").to_string();
+        let mut v: Vec<String> = Vec::new();
+        for line in text.lines() {
+            let t = line.trim_start();
+            for pre in ["pub async fn ", "pub fn "] {
+                if let Some(rest) = t.strip_prefix(pre) {
+                    let n: String = rest.chars().take_while(|c| c.is_alphanumeric() || *c == '_').collect();
+                    if !n.is_empty() && !v.contains(&n) && (!only_blocking || n.contains("blocking") || n.contains("execution")) {
+                        v.push(n);
+                    }
+                }
+            }
+        }
+        v
+    };
+    let mut missing = Vec::new();
+    for (file, only_blocking) in [("websocket_server.rs", false), ("server.rs", true)] {
+        for n in names(file, only_blocking) {
+            if !DRIVEN.contains(&n.as_str()) && !NOT_DRIVEN_BECAUSE.iter().any(|(k, _)| *k == n) {
+                out.count(&format!("offreader.NOT_DRIVEN.{}::{}", file, n));
+                eprintln!("fam_offreader: public entry point {}::{} is neither driven nor listed as not driven", file, n);
+                missing.push(format!("{}::{}", file, n));
+            }
+        }
+    }
+    out.extra.insert("not_driven".into(), json!(missing));
+}
 /// `ocap` values from here on mean: default outbound queue, a server runtime whose blocking pool has
 /// only `ocap - POOL_BASE` threads (written `p<k>` on the cap line)
 const POOL_BASE: usize = 10_000;
@@ -1148,7 +1212,7 @@ async fn do_exit(c: &mut Conn, idx: &str, id: u64, cmd: Cmd) -> OpResult {
 fn pick_cmd(r: &mut Rng) -> Cmd {
     match r.below(6) {
         0 | 1 | 2 => Cmd::Ret,
-        3 => Cmd::Err(*r.pick(&[4u32, 5, 7, 8, 9, 4096])),
+        3 => Cmd::Err(*r.pick(&[0u32, 1, 2, 3, 4, 5, 6, 7, 8, 9, 4096])),
         _ => Cmd::Panic(r.below(PANIC_KINDS as u64) as u8),
     }
 }
@@ -1580,7 +1644,7 @@ async fn run_script(out: &mut Out, servers: &mut HashMap<SrvKey, Srv>, sno: usiz
     let addr = srv.addr;
     // how this script's frames reach the server: in one piece, or chopped (by script number: replay-exact
     // for a whole run; a replayed single script is sent unchopped unless it is the same number)
-    let chop: u8 = match sno % 9 { 2 => 1, 4 => 2, 5 => 3, 7 => 5, 8 => 6, _ => 0 };
+    let chop: u8 = match sno % 9 { 2 => 1, 4 => 2, 5 => 3, 7 => 5, 8 => 6, 1 if sno % (if THOROUGH.load(Ordering::Relaxed) { 81 } else { 27 }) == 1 => 10, _ => 0 };
     out.count(&format!("offreader.client_writes.chop_mode_{}", chop));
     let ws = match tokio::time::timeout(WATCHDOG, chop_connect(srv.addr, None, chop, sno as u64)).await {
         Ok(Ok(ws)) => ws,
@@ -1872,10 +1936,12 @@ async fn run_script(out: &mut Out, servers: &mut HashMap<SrvKey, Srv>, sno: usiz
 
 fn main() {
     let args = Args::parse();
+    THOROUGH.store(args.thorough(), Ordering::Relaxed);
     quiet_panics();
     let mut out = Out::new(&args.out);
     out.rule = "event scripts on one raw WebSocket connection per script against a real WebSocketServer: caps 1..16 and unlimited, routers with and without middleware, the four `_blocking` registrars and a hand-written erased handler with execution() = OffReader (by request id), arrivals up to 4x cap of blocking requests (1 in 5 a notify) interleaved with inline requests (some failing) and exits of random running handlers (return / error code / panic with 7 payload kinds: literal &str, formatted String, None.unwrap(), Err.expect(), index out of bounds, panic_any(u32), assert_eq!), every release order for caps 1..3 (thorough: with every assignment of exit kinds), pressure scripts (outbound queue of one slot, server on a current-thread runtime, caps 1..3): bursts of cap parked + 3..12 further blocking requests + inline requests with 48 KiB answers written to the socket in one piece and read only afterwards; a default-configured server (no with_offreader_limit); reconnect scripts (the client drops the connection while handlers are parked, opens a new one: its own cap-many slots, left-over handlers end later); hook scripts (the server's on_error Saturation hook releases parked handlers from inside a refusal and waits until they have left; the freed slots must then all be usable) and races (12-40 rounds of: fill the cap, write a burst of cap+2 further requests and release everything at the same moment); each script ends by releasing everything, admitting cap-many further requests, one refusal, and releasing again. Distinct by op line; non-trivial = an exit, a saturation reply/drop, or any event while handlers are parked".into();
     let rt = tokio::runtime::Builder::new_multi_thread().worker_threads(4).max_blocking_threads(512).enable_all().build().unwrap();
+    entry_point_audit(&mut out);
     let mut rng = Rng::new(args.seed);
     let scripts: Vec<Vec<(String, Op)>> = match args.replay_ops() {
         Some(lines) => {
@@ -1897,6 +1963,10 @@ fn main() {
         let mut servers: HashMap<SrvKey, Srv> = HashMap::new();
         let mut broken = 0;
         for (sno, ops) in scripts.iter().enumerate() {
+            if out.oracle_failures >= 12 {
+                out.count("offreader.stopped_early_after_12_oracle_failures");
+                break;
+            }
             if !run_script(&mut out, &mut servers, sno, ops, &mut retries).await {
                 broken += 1;
                 if broken >= 3 {
